@@ -47,6 +47,7 @@ type FuncContract struct {
 	Abstract   bool
 	Fresh      bool // result is freshly allocated
 	NoEffect   []string // callee-name patterns assumed to have no effect on the modelled heap
+	FreshOnly  []string // callee-name patterns assumed to modify only objects allocated since this function was entered
 	File       string
 	Line       int
 	Props      []string
@@ -89,7 +90,7 @@ type Contracts struct {
 
 func fkey(pkg, name string) string { return pkg + "::" + name }
 
-var kwRe = regexp.MustCompile(`^(func|spec|lemma|axiom|uf|requires|ensures|invariant|loop|assigns|pure|inline|trusted|maypanic|nosafe|abstract|fresh|at|props|finding|noeffect|assumes|after)\b`)
+var kwRe = regexp.MustCompile(`^(func|spec|lemma|axiom|uf|requires|ensures|invariant|loop|assigns|pure|inline|trusted|maypanic|nosafe|abstract|fresh|at|props|finding|noeffect|freshonly|assumes|after)\b`)
 
 // loadContractFile parses one file. pkgPath is the import path of the package it annotates.
 func (cs *Contracts) loadContractFile(path, pkgPath string) error {
@@ -288,6 +289,8 @@ func (cs *Contracts) loadContractFile(path, pkgPath string) error {
 			cur.Fresh = true
 		case "noeffect":
 			cur.NoEffect = append(cur.NoEffect, strings.Fields(strings.ReplaceAll(rest, ",", " "))...)
+		case "freshonly":
+			cur.FreshOnly = append(cur.FreshOnly, strings.Fields(strings.ReplaceAll(rest, ",", " "))...)
 		case "props":
 			ps := strings.Fields(strings.ReplaceAll(rest, ",", " "))
 			if cur != nil {
